@@ -304,13 +304,20 @@ class _AndFilterToSqlWhere:
 
             link_name = link_filter.link
             notes_in_file = _get_notes_in_file(self.session, link_name)
+            # One IN list instead of one OR term per note: a page with more
+            # than ~1000 notes would exceed SQLite's expression depth limit.
+            indirect_link_names = [
+                *_global_link_names(notes_in_file),
+                *_ref_link_names(notes_in_file),
+                *_zid_link_names(notes_in_file),
+            ]
             subquery = base_subquery.where(
                 or_(
                     sql.Link.name == link_name,
                     like_op(f"{_escape_like(link_name)}#%", escape="\\"),
-                    *_global_link_conds(notes_in_file),
-                    *_ref_link_conds(notes_in_file),
-                    *_zid_link_conds(notes_in_file),
+                    sql.Link.name.in_(  # type: ignore[attr-defined]
+                        indirect_link_names
+                    ),
                 )
             )
             and_conds.append(in_op(subquery))
@@ -322,39 +329,26 @@ def _get_notes_in_file(session: Session, file_name: str) -> list[sql.Note]:
     return list(session.exec(stmt).all())
 
 
-def _global_link_conds(notes: Iterable[sql.Note]) -> list[ColumnElement]:
-    conds = []
-    for note in notes:
-        for prop_link in note.property_links:
-            if prop_link.prop.name == "ID":
-                conds.append(
-                    cast(
-                        ColumnElement,
-                        sql.Link.name == f"global:{prop_link.value}",
-                    )
-                )
-    return conds
+def _global_link_names(notes: Iterable[sql.Note]) -> list[str]:
+    return [
+        f"global:{prop_link.value}"
+        for note in notes
+        for prop_link in note.property_links
+        if prop_link.prop.name == "ID"
+    ]
 
 
-def _ref_link_conds(notes: Iterable[sql.Note]) -> list[ColumnElement]:
-    conds = []
-    for note in notes:
-        for prop_link in note.property_links:
-            if prop_link.prop.name == "RID":
-                conds.append(
-                    cast(
-                        ColumnElement,
-                        sql.Link.name == f"ref:{prop_link.value}",
-                    )
-                )
-    return conds
+def _ref_link_names(notes: Iterable[sql.Note]) -> list[str]:
+    return [
+        f"ref:{prop_link.value}"
+        for note in notes
+        for prop_link in note.property_links
+        if prop_link.prop.name == "RID"
+    ]
 
 
-def _zid_link_conds(notes: Iterable[sql.Note]) -> list[ColumnElement]:
-    conds = []
-    for note in notes:
-        conds.append(cast(ColumnElement, sql.Link.name == f"zid:{note.zid}"))
-    return conds
+def _zid_link_names(notes: Iterable[sql.Note]) -> list[str]:
+    return [f"zid:{note.zid}" for note in notes]
 
 
 def _escape_like(text: str) -> str:
